@@ -50,6 +50,22 @@ struct DealerSocketOutgoingProcessor {
 }
 
 impl DealerSocketOutgoingProcessor {
+  /// The socket is closing. Messages still parked here were accepted by send(): hand them to the
+  /// connections that have room right now, so that they are covered by the socket's LINGER
+  /// handling (which only sees the per-connection pipes). Nothing waits here; what no peer can
+  /// take at once is discarded, as everything in this queue used to be.
+  async fn hand_over_queue_on_stop(&self) {
+    use futures::FutureExt;
+    loop {
+      let next = { self.pending_queue.lock().await.pop_front() };
+      let Some(msg) = next else { break };
+      match self.outgoing_orchestrator.route_message(msg, false).now_or_never() {
+        Some(Ok(())) => continue,
+        _ => break,
+      }
+    }
+  }
+
   pub async fn run(self) {
     tracing::debug!(
       "[DealerProc {}] Outgoing queue processor task started.",
@@ -63,6 +79,7 @@ impl DealerSocketOutgoingProcessor {
         biased;
         _ = self.stop_signal.notified() => {
           tracing::debug!("[DealerProc {}] Stop signal received. Exiting processor loop.", self.core_handle);
+          self.hand_over_queue_on_stop().await;
           break;
         }
         _ = async {
@@ -122,6 +139,7 @@ impl DealerSocketOutgoingProcessor {
                 biased;
                 _ = self.stop_signal.notified() => {
                   tracing::debug!("[DealerProc {}] Stop signal received while retrying. Exiting.", self.core_handle);
+                  self.hand_over_queue_on_stop().await;
                   return;
                 }
                 _ = tokio::time::sleep(Duration::from_millis(5)) => {}
@@ -559,7 +577,8 @@ impl ISocket for DealerSocket {
     match command {
       Command::Stop => {
         self.ingress_engine.close();
-        self.outgoing_orchestrator.deactivate();
+        // The processor hands its queue over to the connections before it exits; the
+        // orchestrator is deactivated only afterwards, or that hand-over would be refused.
         self.processor_stop_signal.notify_one();
         if let Some(handle) = self.processor_task_handle.lock().await.take() {
           if let Err(e) = tokio_timeout(Duration::from_millis(100), handle).await {
@@ -570,6 +589,7 @@ impl ISocket for DealerSocket {
             );
           }
         }
+        self.outgoing_orchestrator.deactivate();
         self.outgoing_queue_activity_notifier.notify_waiters();
         self.peer_availability_notifier.notify_waiters();
         self.queue_space_notifier.notify_waiters();
